@@ -518,6 +518,8 @@ impl Program {
     /// Return the next token in the stream, if it exists,
     /// but don't advance our position in it.
     pub fn peek_next_token(&self) -> Option<Token> {
+        #[cfg(feature = "verif-hooks")]
+        crate::verif::count_token_read();
         self.tokens().get(self.location.token_index).cloned()
     }
 
@@ -633,5 +635,58 @@ impl Program {
                 Some(self.get_prev_location())
             }
         };
+    }
+}
+
+#[cfg(feature = "verif-hooks")]
+impl Program {
+    pub(crate) fn verif_fill(&self, state: &mut crate::verif::VerifState) {
+        use crate::verif::{VerifFrame, VerifFunction, VerifLoop};
+        fn line_of(location: &ProgramLocation) -> Option<u64> {
+            location.as_numbered().map(|nloc| nloc.line)
+        }
+        state.lines = self.numbered_lines.verif_lines();
+        state.sorted_index_keys = self.numbered_lines.verif_sorted_index_keys();
+        state.immediate_line = self
+            .immediate_line
+            .iter()
+            .map(|token| format!("{:?}", token))
+            .collect();
+        state.location_line = line_of(&self.location);
+        state.location_token_index = self.location.token_index;
+        state.breakpoint = self.breakpoint.map(|nloc| (nloc.line, nloc.token_index));
+        state.stack = self
+            .stack
+            .iter()
+            .map(|frame| VerifFrame {
+                return_line: line_of(&frame.return_location),
+                return_token_index: frame.return_location.token_index,
+                bindings: frame.variables.verif_entries(),
+            })
+            .collect();
+        state.loops = self
+            .loop_stack
+            .iter()
+            .map(|info| VerifLoop {
+                line: line_of(&info.location),
+                token_index: info.location.token_index,
+                symbol: info.symbol.to_string(),
+                to_bits: info.to_value.to_bits(),
+                step_bits: info.step_value.to_bits(),
+            })
+            .collect();
+        state.data_cursor = self.data_iterator.as_ref().map(|it| it.verif_cursor());
+        let mut functions = self
+            .functions
+            .iter()
+            .map(|(name, def)| VerifFunction {
+                name: name.to_string(),
+                arguments: def.arguments.iter().map(|arg| arg.to_string()).collect(),
+                line: def.location.line,
+                token_index: def.location.token_index,
+            })
+            .collect::<Vec<_>>();
+        functions.sort_by(|a, b| a.name.cmp(&b.name));
+        state.functions = functions;
     }
 }
